@@ -805,10 +805,14 @@ impl<'forest, I: Interner> SolveState<'forest, I> {
                 // Here, the table we will be searching for answers is
                 // `?T: Debug`, so it could well flounder.
 
-                // This strand has no solution. It is no longer active,
-                // so it dropped at the end of this scope.
+                // We cannot tell whether the negated goal holds, so the
+                // strand can at best yield an ambiguous answer: treat the
+                // literal like a floundered positive one. (Reporting the
+                // strand as finished while the literal is still among its
+                // subgoals would trip the assertion in `pursue_answer`.)
+                self.flounder_subgoal(&mut strand.value.ex_clause, selected_subgoal.subgoal_index);
 
-                true
+                false
             }
         }
     }
